@@ -407,6 +407,48 @@ def unit_reject_params(ctx):
             ctx.holds("%s malformed dot %s rejected" % (cls, bad), r[0] == "raise" and r[1] in ("ValueError", "TypeError"), str(r[:2]), fqd)
 
 
+def replay_smooth_saturation(formula, pinds):
+    def replay(wit):
+        """Native: the exponents returned with the smooth cutoff by a plan that holds a subset of the interpolation grid must equal those of the plan holding all of it."""
+        from pyvc import native
+        native.install_shim()
+        from ciderpress.dft.plans import NLDFGaussianPlan
+        from ciderpress.dft.settings import NLDFSettingsVJ
+        st = NLDFSettingsVJ("MGGA", [2.0, 0.3, 0.05], "one", ["se"], [[1.0, 0.1, 0.02]])
+        kw = dict(coef_order="gq", alpha_formula=formula, raise_large_expnt_error=False, use_smooth_expnt_cutoff=True)
+        full = NLDFGaussianPlan(st, 1, 0.02, 2.0, 5, **kw)
+        part = NLDFGaussianPlan(st, 1, 0.02, 2.0, 5, proc_inds=np.array(pinds if pinds is not None else [0, 1]), **kw)
+        rng = np.random.RandomState(3)
+        rho = np.ascontiguousarray(0.5 + 5 * rng.rand(1, 8))
+        sig = np.ascontiguousarray(rng.rand(1, 8))
+        tau = np.ascontiguousarray(0.5 + rng.rand(1, 8))
+        import ciderpress.dft.plans as P
+        real, seen = P.libcider, []
+
+        class Spy(object):
+            def __getattr__(self, name):
+                f = getattr(real, name)
+                if name != "smooth_cider_exponents":
+                    return f
+
+                def g(*a):
+                    seen.append(float(a[2].value))
+                    return f(*a)
+                return g
+        P.libcider = Spy()
+        try:
+            a_full = full.eval_feat_exp((rho.copy(), sig.copy(), tau.copy()), i=0)[0]
+            a_part = part.eval_feat_exp((rho.copy(), sig.copy(), tau.copy()), i=0)[0]
+        finally:
+            P.libcider = real
+        err = float(np.max(np.abs(a_full - a_part) / np.abs(a_full)))
+        amax = float(np.max(full.alphas))
+        off = [x for x in seen if abs(x - amax) > 1e-12 * amax]
+        return {"reproduced": bool(err > 1e-12 or off or len(seen) < 2), "max relative difference of the exponents (subset vs whole grid)": err, "largest exponent of the grid": amax,
+                "saturation values handed to C": seen}
+    return replay
+
+
 def unit_reject_plans(ctx):
     it = ctx.interp
     m = it.load_module(SMOD)
@@ -476,23 +518,27 @@ def unit_reject_plans(ctx):
             ps = all_paths(it, lambda: it.call_method(plan, "eval_feat_exp", [(rho.copy(), sigma.copy(), tau.copy())], {"i": i}))
             okp = all(p[0] == "return" or smt.check_sat(hy2 + p[2], ctx.timeout)[0] == "unsat" for p in ps)
             ctx.holds("eval_feat_exp[%s, i=%d]: exponents within range are accepted" % (formula, i), okp, "", fq)
-        # smooth cutoff: the saturation value handed to the C routine is the largest control exponent
-        plan_s = make_plan(it, stt, 1, nalpha=3, hyps=list(hyps), rhocut=RC, raise_large_expnt_error=False, alpha_formula=formula, use_smooth_expnt_cutoff=True)
-        seen = []
-        libc = pm.ns["libcider"]
-        it.externals["%s.smooth_cider_exponents" % libc.name] = lambda interp, a_ptr, d_ptr, amax_, n_, nd_: seen.append((amax_, n_, nd_))
-        it.hyps = list(hyps_f)
-        try:
-            ps = all_paths(it, lambda: it.call_method(plan_s, "eval_feat_exp", [(rho.copy(), sigma.copy(), tau.copy())], {"i": 0}))
-            val = seen[0][0] if seen else None
-            ctx.holds("eval_feat_exp[%s]: smooth cutoff is called once per evaluation" % formula, len(seen) >= 1 and all(p[0] == "return" for p in ps), "%d calls" % len(seen), fq)
-            if val is not None:
-                ctx.equal("eval_feat_exp[%s]: the smooth cutoff saturates at the largest control exponent" % formula, hyps_f, val, amax, fq)
-                ctx.holds("eval_feat_exp[%s]: smooth cutoff gets the number of points and derivative arrays" % formula, seen[0][1] == NS and seen[0][2] == 3, "%r" % (seen[0][1],), fq)
-        except Unsupported as e:
-            ctx.undecided("eval_feat_exp[%s] smooth cutoff call modelled" % formula, str(e)[:200], fq)
-        finally:
-            it.externals.pop("%s.smooth_cider_exponents" % libc.name, None)
+        # smooth cutoff: the saturation value handed to the C routine is the largest control exponent — of the WHOLE interpolation grid, also on a process that holds
+        # only some of the exponents (proc_inds): the exponent, and with it every feature's scaling power, must not depend on how the grid is distributed
+        for pinds in (None, [0, 1], [1]):
+            kwp = {} if pinds is None else {"proc_inds": np.array(pinds)}
+            lab = formula if pinds is None else "%s, proc_inds=%s" % (formula, pinds)
+            seen = []
+            libc = pm.ns["libcider"]
+            try:
+                plan_s = make_plan(it, stt, 1, nalpha=3, hyps=list(hyps), rhocut=RC, raise_large_expnt_error=False, alpha_formula=formula, use_smooth_expnt_cutoff=True, **kwp)
+                it.externals["%s.smooth_cider_exponents" % libc.name] = lambda interp, a_ptr, d_ptr, amax_, n_, nd_: seen.append((amax_, n_, nd_))
+                it.hyps = list(hyps_f)
+                ps = all_paths(it, lambda: it.call_method(plan_s, "eval_feat_exp", [(rho.copy(), sigma.copy(), tau.copy())], {"i": 0}))
+                val = seen[0][0] if seen else None
+                ctx.holds("eval_feat_exp[%s]: smooth cutoff is called once per evaluation" % lab, len(seen) >= 1 and all(p[0] == "return" for p in ps), "%d calls" % len(seen), fq)
+                if val is not None:
+                    ctx.equal("eval_feat_exp[%s]: the smooth cutoff saturates at the largest control exponent" % lab, hyps_f, val, amax, fq, replay=replay_smooth_saturation(formula, pinds))
+                    ctx.holds("eval_feat_exp[%s]: smooth cutoff gets the number of points and derivative arrays" % lab, seen[0][1] == NS and seen[0][2] == 3, "%r" % (seen[0][1],), fq)
+            except (Unsupported, PyRaise) as e:
+                ctx.undecided("eval_feat_exp[%s] smooth cutoff call modelled" % lab, str(e)[:200], fq)
+            finally:
+                it.externals.pop("%s.smooth_cider_exponents" % libc.name, None)
     del it.overrides[SMOD + ":get_cider_exponent"]
     for i in (2, -2, 7):
         all_raise(ctx, "eval_feat_exp feature index %d rejected" % i, it, hyps + [tm.mk_lt(RC, r) for r in rho], lambda: it.call_method(plan, "eval_feat_exp", [(rho.copy(), sigma.copy(), tau.copy())], {"i": i}), fq)
